@@ -598,6 +598,9 @@ func (ex *Exec) appendBuiltin(s, t Value, c *ssa.CallCommon) Value {
 			}
 			bo := ex.newByteObjZero(n)
 			ex.bulkCopy(bo, ex.c64(0), src, srcOff, n)
+			if bb, isB := t.(Bytes); isB && whole(bb) {
+				bo.Ghost = bb.BO.Ghost // an exact copy of a whole blob is the same blob to the library models
+			}
 			return Bytes{BO: bo, Off: ex.c64(0), Len: n, Cap: n}
 		}
 		newLen := tb.Add(a.Len, n)
@@ -610,6 +613,9 @@ func (ex *Exec) appendBuiltin(s, t Value, c *ssa.CallCommon) Value {
 		bo := ex.newByteObjZero(newLen)
 		ex.bulkCopy(bo, ex.c64(0), a.BO.snapshot(), a.Off, a.Len)
 		ex.bulkCopy(bo, a.Len, src, srcOff, n)
+		if bb, isB := t.(Bytes); isB && whole(bb) && a.Len.IsConst() && a.Len.Uint64() == 0 {
+			bo.Ghost = bb.BO.Ghost // append([]byte{}, b...) / bytes.Clone(b)
+		}
 		return Bytes{BO: bo, Off: ex.c64(0), Len: newLen, Cap: newLen}
 	case *GSlice:
 		b, _ := t.(*GSlice)
